@@ -51,26 +51,18 @@ theorem update_dkeysOK {ik : Bool} {it : Iter E ε} (input : List E) {s s' : S}
     (fun a _ b b1 hb hs => updStep_dkeysOK hs hb) s s' h hp
 
 
-/-- the flags a DBI created while loading a snapshot message gets -/
-def createFlags (c : Cfg) (m : DbiMsg) : Nat :=
-  (((c.override.find? (·.1 = m.name)).map (·.2)).getD m.flags) % 2 ^ 16
-
 /-- the working state after `loadDbi` opened (creating when missing) the application DBI and its
     shadow (non-native mode) -/
 def loadOpened (c : Cfg) (w : W) (m : DbiMsg) : W :=
   openCreate (openCreate w m.name (createFlags c m)) (shadowName m.name)
     (createFlags c m &&& Gen.allowedShadowDBIFlagsMask)
 
-theorem loadDbi_private {c : Cfg} {snap : Snap} {txnID cutoff : Nat} {w : W} {m : DbiMsg}
-    (hp : isPrivate m.name = true) : loadDbi c snap txnID cutoff w m = .ok w := by
-  unfold loadDbi; simp [hp]; rfl
-
 theorem openCreate_match (w : W) (n : Bytes) (fl : Nat) :
     (match findDbi w.dbis n with
       | some _ => w
       | none => openCreate w n fl) = openCreate w n fl := by
   cases h : findDbi w.dbis n with
-  | some d => simp only []; exact (openCreate_of_some fl h).symm
+  | some d => simp only []; exact (openCreate_of_someMirror fl h).symm
   | none => rfl
 
 theorem loadOpened_find_shadow (c : Cfg) (w : W) (m : DbiMsg) :
@@ -124,20 +116,20 @@ theorem loadDbi_shadow_ok {c : Cfg} {snap : Snap} {txnID cutoff : Nat} {w w' : W
     exact ⟨td, s, htd, mapStratErr_ok hs, hw'⟩
   cases hd : findDbi w.dbis m.name with
   | some d =>
-    have e1 : openCreate w m.name (createFlags c m) = w := openCreate_of_some _ hd
+    have e1 : openCreate w m.name (createFlags c m) = w := openCreate_of_someMirror _ hd
     simp only [hd] at h
     cases hsd : findDbi w.dbis (shadowName m.name) with
     | some sd =>
       simp only [hsd] at h
       refine fin w sd ?_ hsd h
-      unfold loadOpened; rw [e1, openCreate_of_some _ hsd]
+      unfold loadOpened; rw [e1, openCreate_of_someMirror _ hsd]
     | none =>
       simp only [hsd] at h
       have hf := openCreate_find_self w (shadowName m.name) (createFlags c m &&& Gen.allowedShadowDBIFlagsMask)
-      unfold createFlags at hf
+      unfold createFlags ovrOf at hf
       simp only [hf] at h
       refine fin _ _ ?_ hf h
-      unfold loadOpened createFlags; rw [← createFlags, e1]
+      unfold loadOpened; rw [e1]; rfl
   | none =>
     simp only [hd] at h
     by_cases hu : snap.fv < 3 ∧ ((c.override.find? (·.1 = m.name)).map (·.2)).isNone = true
@@ -145,19 +137,19 @@ theorem loadDbi_shadow_ok {c : Cfg} {snap : Snap} {txnID cutoff : Nat} {w w' : W
     · simp only [hu, if_false] at h
       cases hsd : findDbi (openCreate w m.name (createFlags c m)).dbis (shadowName m.name) with
       | some sd =>
-        unfold createFlags at hsd
+        unfold createFlags ovrOf at hsd
         simp only [hsd] at h
         refine fin _ sd ?_ hsd h
-        unfold loadOpened createFlags; rw [openCreate_of_some _ hsd]
+        unfold loadOpened createFlags ovrOf; rw [openCreate_of_someMirror _ hsd]
       | none =>
-        unfold createFlags at hsd
+        unfold createFlags ovrOf at hsd
         simp only [hsd] at h
         have hf := openCreate_find_self (openCreate w m.name (createFlags c m)) (shadowName m.name)
           (createFlags c m &&& Gen.allowedShadowDBIFlagsMask)
-        unfold createFlags at hf
+        unfold createFlags ovrOf at hf
         simp only [hf] at h
         refine fin _ _ ?_ hf h
-        unfold loadOpened createFlags; rfl
+        unfold loadOpened createFlags ovrOf; rfl
 
 /-! ### `update` facts used for the shadow DBI -/
 
@@ -222,7 +214,7 @@ theorem loadOpened_of_both {c : Cfg} {w : W} {m : DbiMsg} {d sd : Dbi}
     (hd : findDbi w.dbis m.name = some d) (hsd : findDbi w.dbis (shadowName m.name) = some sd) :
     loadOpened c w m = w := by
   unfold loadOpened
-  rw [openCreate_of_some _ hd, openCreate_of_some _ hsd]
+  rw [openCreate_of_someMirror _ hd, openCreate_of_someMirror _ hsd]
 
 theorem loadOpened_find_other (c : Cfg) (w : W) (m : DbiMsg) (x : Bytes) (h1 : x ≠ m.name)
     (h2 : x ≠ shadowName m.name) : findDbi (loadOpened c w m).dbis x = findDbi w.dbis x := by
@@ -255,18 +247,18 @@ theorem loadDbi_shadow_track {c : Cfg} {snap : Snap} {txnID cutoff : Nat} {w w' 
       rw [loadOpened_of_both hd hsd] at htd hs ⊢
       rw [hsd] at htd; injection htd with htd; subst htd
       refine ⟨?_, fun h => ?_, fun _ _ => ⟨s, hs, ?_⟩⟩
-      · simp only [findDbi_setKvs, if_neg hne1, hd]
+      · simp only [findDbi_setKvsMirror, if_neg hne1, hd]
       · rcases h with h | h
         · cases h
         · exact absurd rfl h
-      · simp only [findDbi_setKvs, if_true, hsd, Option.map_some]
+      · simp only [findDbi_setKvsMirror, if_true, hsd, Option.map_some]
     · have hne2 : n ≠ m.name := fun he => hmn he.symm
       have hne3 : shadowName n ≠ shadowName m.name := fun he => hne2 (shadowName_inj he)
       have hne4 : shadowName n ≠ m.name := fun he => by rw [← he, isPrivate_shadowName] at hpm; cases hpm
       refine ⟨?_, fun _ => ?_, fun _ h => absurd h hmn⟩
-      · simp only [findDbi_setKvs, if_neg hne1]
+      · simp only [findDbi_setKvsMirror, if_neg hne1]
         rw [loadOpened_find_other c w m n hne2 hne1]; exact hd
-      · simp only [findDbi_setKvs, if_neg hne3]
+      · simp only [findDbi_setKvsMirror, if_neg hne3]
         rw [loadOpened_find_other c w m _ hne4 hne3]; exact hsd
 
 /-- the fold of `loadDbi` over the snapshot's messages (non-native), seen from one existing
